@@ -349,6 +349,12 @@ class FrameMonitor(Monitor):
         is_arg = []
         _collect_converters(list(args) + list(kwargs.values()), is_arg)
         arg_ids = {id(c) for c in is_arg}
+        if fn in DERIVATIONS and outcome[0] == "ret" and isinstance(outcome[1], api().Converter):
+            evaluated(f"{mon}:new-object")
+            if id(outcome[1]) in arg_ids:
+                # "return a new converter": handing back the input makes every later change of the result a change of the input
+                violation(["C10"], mon, f"{fn}-returns-its-input-instead-of-a-new-converter", operation=fn,
+                          arguments=_args_witness(args, kwargs))
         for conv, qs, before in ctx:
             evaluated(mon)
             evaluated("prop:C10")
